@@ -324,13 +324,9 @@ fn check_mapping_empty(
             return Ok(true);
         }
     }
-    if let Some(idx) = &pos.indexed_properties {
-        // an index signature that admits no key or no value still leaves the object without such keys
-        // (`{}` is a value of `{ [k: string]: never }`); only a Map is judged by its entry types alone
-        if is_map && (idx.key.is_empty(ctx)? || idx.value.is_empty(ctx)?) {
-            return Ok(true);
-        }
-    }
+    // an index signature (or the entry types of a Map) that admits no key or no value still leaves the object
+    // without such keys / the empty Map: `{}` is a value of `{ [k: string]: never }`, `new Map()` of
+    // `Map<string, never>`
 
     // 2. If no negs, not empty (unless pos is empty, checked above)
     // If we have no negative constraints left to subtract, and `pos` is not empty,
